@@ -764,8 +764,8 @@ func (g *ggen) fresh(p string) string {
 	g.seq++
 	return string(gAlphabet[(g.seq*5+len(p))%26]) + p + strconv.Itoa(g.seq) + string(gAlphabet[(g.seq*7+len(p))%len(gAlphabet)])
 }
-func (g *ggen) tag() string           { g.tags++; return "t" + strconv.Itoa(g.tags) }
-func (g *ggen) hit(f string)          { g.feat[f]++ }
+func (g *ggen) tag() string  { g.tags++; return "t" + strconv.Itoa(g.tags) }
+func (g *ggen) hit(f string) { g.feat[f]++ }
 
 func (env genv) with(name string, t *gty) genv {
 	nv := append(append([]gvar{}, env.vars...), gvar{name, t})
